@@ -137,7 +137,37 @@ def check_one(t, q, tag):
                     dict(replay, step="second call"))
 
 
+def non_literal_wrappers(t):
+    """A wrapper whose dictionary argument is not a literal is not an EMPTY wrapper: kept in
+    place, no error (repaired defect: ValueError from ast.literal_eval; outside the domain md_wf of
+    the deductive proof, which covers the wrappers the library itself emits)."""
+    from func_adl.ast.meta_data import remove_empty_metadata
+    for src, want in (
+            ("Select(MetaData(ds, e.cfg), lambda e: e.met)", None),
+            ("Select(MetaData(MetaData(ds, {}), cfg()), lambda e: MetaData(e.jets, f(1)))",
+             "Select(MetaData(ds, cfg()), lambda e: MetaData(e.jets, f(1)))"),
+            ("MetaData(MetaData(MetaData(ds, {'a': 1}), {}), {**base})",
+             "MetaData(MetaData(ds, {'a': 1}), {**base})"),
+            ("Select(ds, lambda e: MetaData(e.jets, {e.k: 1}))", None)):
+        q = parse_expr(src)
+        before = dump(q)
+        t.case("C15:non-literal:" + src, True, sample=src)
+        t.contract("remove_empty_metadata: a non-literal wrapper is kept, nothing raised")
+        rp = {"kind": "C15", "src": src}
+        try:
+            got = remove_empty_metadata(q)
+        except Exception as ex:
+            t.violation("remove_empty_metadata:no-exception", f"raises {type(ex).__name__}", src,
+                        want or src, repr(ex)[:120], rp)
+            continue
+        if unparse(got) != (want or src) or dump(q) != before:
+            t.violation("remove_empty_metadata:ensures same(result, drop_empty_metadata(a))",
+                        "a wrapper that is not an empty one was touched", src, want or src,
+                        unparse(got), rp)
+
+
 def run(t):
+    non_literal_wrappers(t)
     rng = t.rng
     quick = t.tier == "quick"
     base = [s for s, k in gen.chains(2, 1, "distinct", method=False, rng=rng,
